@@ -16,18 +16,14 @@ Definition Inv (s : st) : Prop :=
 Definition Linked (s : st) : Prop :=
   clink s = true -> forall o, In o (objs s) -> olink s o = LThis.
 
-(* premises on one operation:
+(* premise on one operation:
    SetNum: the number setter of a member validates against the collection of the problem the
      member is linked to.  A member that is not linked to this collection's problem (free-standing
      collection; member taken over by another problem) can be renumbered onto a number in use
-     without this collection seeing it: excluded.
-   Remove: list.remove takes out the first member that EQUALS the argument, the cache eviction works
-     on the argument itself: remove(x) with x equal to, but not identical with, a member leaves
-     the member's other cache entries behind (refuted below): excluded. *)
+     without this collection seeing it: excluded. *)
 Definition op_ok (s : st) (o : op) : Prop :=
   match o with
   | SetNum x n => olink s x = LThis \/ ~ In x (objs s) \/ ~ In n (numbers_of s)
-  | Remove x => find_eq s x = Some x \/ find_eq s x = None
   | _ => True
   end.
 Fixpoint ops_ok (s : st) (ops : list op) : Prop :=
@@ -1216,16 +1212,14 @@ Proof.
   apply cache_pop_in in Hin. eauto.
 Qed.
 
-Lemma remove_inv s x :
-  Inv s -> (find_eq s x = Some x \/ find_eq s x = None) -> Inv (fst (remove s x)).
+Lemma remove_inv s x : Inv s -> Inv (fst (remove s x)).
 Proof.
-  intros I Hok. unfold remove. destruct Hok as [E | E]; rewrite E; cbn [fst].
-  - apply (sub_members_inv s); auto; cbn [set_objs set_cache objs cache].
-    + intros y. apply remove_first_in.
-    + apply NoDup_map_remove_first. destruct I as [I1 _]. exact I1.
-    + destruct I as [_ I2]. eapply evicted_ok; eauto.
-      intros y Hy Hne. apply remove_first_keep; auto.
-  - eapply cstep_inv; eauto. apply cstep_set_cache. apply cache_ok_pop.
+  intros I. unfold remove. destruct (find_eq s x) as [e |]; cbn [fst]; [| exact I].
+  apply (sub_members_inv s); auto; cbn [set_objs set_cache objs cache].
+  - intros y. apply remove_first_in.
+  - apply NoDup_map_remove_first. destruct I as [I1 _]. exact I1.
+  - destruct I as [_ I2]. eapply evicted_ok; eauto.
+    intros y Hy Hne. apply remove_first_keep; auto.
 Qed.
 
 Lemma remove_linked s x : Linked s -> Linked (fst (remove s x)).
@@ -1233,7 +1227,7 @@ Proof.
   intro L. unfold remove. destruct (find_eq s x) as [e |]; cbn [fst].
   - unfold Linked. cbn [set_objs set_cache objs olink clink].
     intros Hc y Hy. apply L; auto. eapply remove_first_in; eauto.
-  - eapply cstep_linked; eauto. apply cstep_set_cache. apply cache_ok_pop.
+  - exact L.
 Qed.
 
 Lemma pop_inv s p : Inv s -> Inv (fst (pop s p)).
@@ -1480,19 +1474,14 @@ Qed.
 Lemma step_key_inj s o : key_inj s -> key_inj (fst (step s o)).
 Proof. unfold key_inj. rewrite step_okey. auto. Qed.
 
-(* a problem's collection of a kind whose == is identity, whose members are not taken over by
-   another problem: every operation is inside the premise *)
-Lemma linked_identity_ok s o :
-  Inv s -> Linked s -> clink s = true -> key_inj s -> op_ok s o.
+(* a problem's collection whose members are not taken over by another problem: every operation
+   is inside the premise *)
+Lemma linked_ok s o : Linked s -> clink s = true -> op_ok s o.
 Proof.
-  intros I L Hc Hk. destruct o; cbn [op_ok]; auto.
-  - (* Remove *)
-    destruct (find_eq s o) as [e |] eqn:E; auto.
-    left. f_equal. eapply find_eq_inj; eauto.
-  - (* SetNum *)
-    destruct (mem_o o (objs s)) eqn:Em.
-    + left. apply L; auto. apply mem_o_spec; exact Em.
-    + right; left. apply mem_o_false; exact Em.
+  intros L Hc. destruct o; cbn [op_ok]; auto.
+  destruct (mem_o o (objs s)) eqn:Em.
+  - left. apply L; auto. apply mem_o_spec; exact Em.
+  - right; left. apply mem_o_false; exact Em.
 Qed.
 
 Lemma step_clink s o : clink (fst (step s o)) = clink s.
@@ -1560,56 +1549,23 @@ Proof.
     destruct (mem_Z (num s x) (fnumbers_of s)); reflexivity.
 Qed.
 
-Lemma run_inv_identity :
-  forall ops s, Inv s -> Linked s -> clink s = true -> key_inj s -> ops_keep s ops ->
+(* full strength for a problem's collection of any of the five kinds *)
+Lemma run_inv_linked :
+  forall ops s, Inv s -> Linked s -> clink s = true -> ops_keep s ops ->
     Inv (run s ops) /\ Linked (run s ops).
 Proof.
-  induction ops as [| o r IH]; intros s I L Hc Hk Hkeep; cbn [run].
+  induction ops as [| o r IH]; intros s I L Hc Hkeep; cbn [run].
   - auto.
   - destruct Hkeep as [Ho Hr]. apply IH; auto.
-    + apply step_inv; auto. apply linked_identity_ok; auto.
-    + apply step_linked; auto.
-    + rewrite step_clink. exact Hc.
-    + apply step_key_inj; auto.
-Qed.
-
-(* a problem's collection of any kind (Surface and Material included): the only premise left is
-   that remove() is given the member itself *)
-Definition op_same (s : st) (o : op) : Prop :=
-  match o with Remove x => find_eq s x = Some x \/ find_eq s x = None | _ => True end.
-Fixpoint ops_same (s : st) (ops : list op) : Prop :=
-  match ops with [] => True | o :: r => op_same s o /\ ops_same (fst (step s o)) r end.
-
-Lemma linked_ok s o : Linked s -> clink s = true -> op_same s o -> op_ok s o.
-Proof.
-  intros L Hc Hs. destruct o; cbn [op_ok op_same] in *; auto.
-  destruct (mem_o o (objs s)) eqn:Em.
-  - left. apply L; auto. apply mem_o_spec; exact Em.
-  - right; left. apply mem_o_false; exact Em.
-Qed.
-
-Lemma run_inv_linked :
-  forall ops s, Inv s -> Linked s -> clink s = true -> ops_keep s ops -> ops_same s ops ->
-    Inv (run s ops) /\ Linked (run s ops).
-Proof.
-  induction ops as [| o r IH]; intros s I L Hc Hkeep Hsame; cbn [run].
-  - auto.
-  - destruct Hkeep as [Ho Hr]. destruct Hsame as [Hs Hsr]. apply IH; auto.
     + apply step_inv; auto. apply linked_ok; auto.
     + apply step_linked; auto.
     + rewrite step_clink. exact Hc.
 Qed.
 
-(* the boolean premises used by the harness are the premises of the theorems *)
+(* the boolean premise used by the harness is the premise of the theorems *)
 Lemma op_okb_spec s o : op_okb s o = true <-> op_ok s o.
 Proof.
   destruct o; cbn [op_okb op_ok]; try tauto.
-  - (* Remove *)
-    unfold remove_same. destruct (find_eq s o) as [e |] eqn:E.
-    + rewrite Nat.eqb_eq. split.
-      * intros ->. auto.
-      * intros [H | H]; [inversion H; auto | discriminate].
-    + split; auto.
   - (* SetNum *)
     unfold setnum_seen. rewrite !orb_true_iff, !negb_true_iff. split.
     + intros [[H | H] | H].
@@ -1745,62 +1701,33 @@ Proof.
 Qed.
 
 (* ------------------------------------------------------------------ *)
-(* the unchanged code does not keep the invariant when remove() is given an equal object that is
-   not the member: objects 0 and 1 have the same value; 0 is the only member, numbered 5, object 1
-   is numbered 6.  Member 0 is renumbered 5 -> 6 (the cache keeps 5 -> 0), remove(1) takes out
-   member 0 but evicts the entries of object 1; object 0 is renumbered back to 5:
-   get(5) answers object 0, which is not a member. *)
-Definition refute_st : st :=
+(* regression witness of the repaired defect (fix: remove(x) evicts the entries of the member it
+   takes out): objects 0 and 1 have the same value; 0 is the only member, numbered 5, object 1 is
+   numbered 6.  Member 0 is renumbered 5 -> 6, remove(1) takes out member 0, object 0 is renumbered
+   back to 5: get(5) finds nothing (before the repair it answered object 0). *)
+Definition twin_st : st :=
   mkst [0%nat] [(5, 0%nat)] (fun o => if Nat.eqb o 0 then 5 else 6) (fun _ => 0%nat)
        (fun o => if Nat.eqb o 0 then LThis else LNone) (fun _ => true) true [].
-Definition refute_ops : list op := [SetNum 0%nat 6; Remove 1%nat; SetNum 0%nat 5].
+Definition twin_ops : list op := [SetNum 0%nat 6; Remove 1%nat; SetNum 0%nat 5].
 
-Lemma refute_st_init :
+Lemma twin_st_init :
   init [0%nat] (fun o => if Nat.eqb o 0 then 5 else 6) (fun _ => 0%nat)
-       (fun o => if Nat.eqb o 0 then LThis else LNone) (fun _ => true) true [] = Some refute_st.
+       (fun o => if Nat.eqb o 0 then LThis else LNone) (fun _ => true) true [] = Some twin_st.
 Proof. reflexivity. Qed.
 
-Lemma inv_refuted :
-  exists s ops n o,
-    Inv s /\ Linked s /\ clink s = true /\ ops_keep s ops /\
-    (forall p, In p ops -> match p with Remove _ => True | SetNum _ _ => True | _ => False end) /\
-    snd (get (run s ops) n) = Some o /\ ~ In o (objs (run s ops)).
-Proof.
-  exists refute_st, refute_ops, 5, 0%nat.
-  split; [exact (init_inv _ _ _ _ _ _ _ _ refute_st_init) |].
-  split.
-  { eapply init_linked; [exact refute_st_init |]. intros _ o [<- | []]. reflexivity. }
-  split; [reflexivity |].
-  split; [cbn; auto |].
-  split.
-  { intros p [<- | [<- | [<- | []]]]; exact Logic.I. }
-  split.
-  - vm_compute. reflexivity.
-  - vm_compute. intros [].
-Qed.
-
-(* the sequence leaves the premise op_ok exactly at the remove *)
-Lemma refuted_outside_premise :
-  ops_ok refute_st [SetNum 0%nat 6] /\
-  ~ op_ok (run refute_st [SetNum 0%nat 6]) (Remove 1%nat) /\
-  ~ ops_ok refute_st refute_ops.
-Proof.
-  assert (Hrem : ~ op_ok (run refute_st [SetNum 0%nat 6]) (Remove 1%nat)).
-  { intro H. apply op_okb_spec in H. vm_compute in H. discriminate. }
-  split; [| split].
-  - cbn. split; auto.
-  - exact Hrem.
-  - intros [_ [H _]]. apply Hrem. exact H.
-Qed.
+Lemma remove_equal_object_repaired :
+  objs (run twin_st twin_ops) = [] /\ snd (get (run twin_st twin_ops) 5) = None /\
+  cache (run twin_st twin_ops) = [].
+Proof. vm_compute. auto. Qed.
 
 (* the hypotheses of the partial and of the full-strength theorems are satisfiable *)
 Lemma inv_partial_satisfiable :
   exists s ops, Inv s /\ ops_ok s ops /\ List.length ops = 3%nat /\ objs (run s ops) <> objs s.
 Proof.
-  exists refute_st, [SetNum 0%nat 6; Remove 0%nat; SetNum 0%nat 5].
-  split; [exact (init_inv _ _ _ _ _ _ _ _ refute_st_init) |].
+  exists twin_st, [SetNum 0%nat 6; Remove 0%nat; SetNum 0%nat 5].
+  split; [exact (init_inv _ _ _ _ _ _ _ _ twin_st_init) |].
   split.
-  - cbn [ops_ok]. split; [cbn; auto |]. split; [left; vm_compute; reflexivity |].
+  - cbn [ops_ok]. split; [cbn; auto |]. split; [exact Logic.I |].
     split; [right; left; vm_compute; intros [] | exact Logic.I].
   - split; [reflexivity | vm_compute; discriminate].
 Qed.
@@ -1809,9 +1736,9 @@ Definition ident_st : st :=
   mkst [0%nat; 1%nat] [(2, 1%nat); (1, 0%nat)] (fun o => Z.of_nat o + 1) (fun o => o)
        (fun _ => LThis) (fun _ => true) true [2%nat].
 
-Lemma inv_identity_satisfiable :
-  exists s ops, Inv s /\ Linked s /\ clink s = true /\ key_inj s /\ ops_keep s ops /\
-                ops_same s ops /\ objs s <> [] /\ List.length ops = 4%nat.
+Lemma inv_linked_satisfiable :
+  exists s ops, Inv s /\ Linked s /\ clink s = true /\ ops_keep s ops /\
+                objs s <> [] /\ List.length ops = 4%nat.
 Proof.
   exists ident_st, [SetNum 0%nat 2; Remove 1%nat; FAppend 3%nat; SetNum 0%nat 2].
   split.
@@ -1819,13 +1746,9 @@ Proof.
                     (fun _ => true) true [2%nat]). reflexivity. }
   split; [intros _ o _; reflexivity |].
   split; [reflexivity |].
-  split; [intros a b H; exact H |].
   split.
   { cbn [ops_keep op_keeps]. split; [exact Logic.I |]. split; [exact Logic.I |].
     split; [vm_compute; intros [H | []]; discriminate |]. split; exact Logic.I. }
-  split.
-  { cbn [ops_same op_same]. split; [exact Logic.I |].
-    split; [left; vm_compute; reflexivity |]. repeat split. }
   split; [discriminate | reflexivity].
 Qed.
 
